@@ -235,6 +235,34 @@ func c08Transcripts() []c08Transcript {
 		t.msgs = append(t.msgs, hello(3, bad))
 		t.groups = [][]rig.ExecSpec{{ex("a", "echo", nil)}}
 	}
+	// a hello of a supported version whose schema does not unserialize, from a plugin that talks on regardless: the
+	// calls made after the failed ReadSchema fail, they do not pick results out of what follows
+	for i, bad := range []any{"not a schema", stepWith(scopeWith("Missing", "A", "A")), map[string]any{"steps": 5}} {
+		for _, version := range []int64{3, 1} {
+			out = append(out, c08Transcript{name: fmt.Sprintf("bad-schema-%d-v%d-plugin-goes-on", i, version), version: version, expectID: map[string]string{}, expect: map[string]any{}, afterBadHello: true})
+			t := &out[len(out)-1]
+			t.msgs = append(t.msgs, hello(version, bad))
+			a, b, c := ex("a", "echo", nil), ex("b", "echo", nil), ex("c", "echo2", nil)
+			t.groups = [][]rig.ExecSpec{{a, b, c}}
+			if version == 1 {
+				t.groups = [][]rig.ExecSpec{{a}, {b}}
+			}
+			for gi, e := range []rig.ExecSpec{a, b, c} {
+				if version == 1 {
+					if gi == 2 {
+						break
+					}
+					id, data, _ := rig.InProcess(e.RunID, e.StepID, e.Input)
+					t.msgs = append(t.msgs, c08Msg{name: "v1-work-done(" + e.RunID + ")", bytes: mustCBOR(atp.WorkDoneMessage{StepID: e.StepID, OutputID: id, OutputData: data}), gateCount: 2 + gi})
+				} else {
+					m, _, _ := done(e.RunID, e.StepID, e.Input)
+					m.gateRun, m.gateCount, m.terminalFor = "", 1+gi, ""
+					t.msgs = append(t.msgs, m)
+				}
+				t.expectID[e.RunID] = ""
+			}
+		}
+	}
 	for i := range out {
 		off := int64(0)
 		for j := range out[i].msgs {
@@ -428,6 +456,12 @@ func c08Replay(t *c08Transcript, f c08Fault, s2cMode rig.Mode, chunkSeed uint64)
 		res.closeErr = cli.Close()
 		res.closeReturned = true
 	}()
+	// a call that spins on a sticky error never lets the process go quiet: the driver's CPU-time verdict for the
+	// journalled case has to come before this watchdog
+	watchdog := 20 * time.Second
+	if f.kind == rig.FaultReadTimeout {
+		watchdog = 150 * time.Second
+	}
 	res.monitor = rig.Monitor(func() bool { return done.Load() == 1 }, func(*rig.Snapshot, rig.Verdict) bool {
 		// paused goroutines go on first; only then does the server let a held message go
 		if at, ok := rig.Y.ReleaseOne(); ok {
@@ -440,7 +474,7 @@ func c08Replay(t *c08Transcript, f c08Fault, s2cMode rig.Mode, chunkSeed uint64)
 			return true
 		}
 		return false
-	}, 20*time.Second)
+	}, watchdog)
 	if armed {
 		res.hits, _, _, res.pauses = rig.Y.Stats()
 		res.released = append(res.released, res.monitor.Released...)
@@ -658,6 +692,10 @@ func runC08(c *wk.Ctx) {
 					f.garbage = garb[int(k)%len(garb)]
 				}
 				jobs = append(jobs, job{ti, f, "cut"})
+			}
+			if bound[k] || k%7 == 3 {
+				// an expired read deadline: the error says Timeout() == true and comes back on every later read
+				jobs = append(jobs, job{ti, c08Fault{kind: rig.FaultReadTimeout, at: k, failWrites: -1}, "cut"})
 			}
 		}
 		// one flipped byte inside the hello message (the schema description travels there): ReadSchema may fail or
